@@ -51,9 +51,11 @@ class World:
         from pfhedge.instruments import BrownianStock, EuropeanOption, HestonStock, LookbackOption
         dtype = torch.float64
         self.kind = kind
-        self.prim = {"p1": BrownianStock(dt=0.25, cost=1e-3, dtype=dtype), "p2": HestonStock(dt=0.25, cost=2e-3, dtype=dtype)}
+        # the two primaries have DIFFERENT step sizes but give series of the same length (5 time points): whatever a hedger or a
+        # feature remembers about a derivative must not be keyed on shapes alone
+        self.prim = {"p1": BrownianStock(dt=0.25, cost=1e-3, dtype=dtype), "p2": HestonStock(dt=0.125, cost=2e-3, dtype=dtype)}
         self.deriv = {"d1": EuropeanOption(self.prim["p1"], maturity=1.0), "d2": LookbackOption(self.prim["p1"], maturity=1.0, strike=1.1),
-                      "d3": EuropeanOption(self.prim["p2"], call=False, maturity=0.75)}
+                      "d3": EuropeanOption(self.prim["p2"], call=False, maturity=0.5)}
         self.deriv["d2"].list(lambda d: d.ul().spot, cost=5e-4)         # the pricer hands out the buffer itself
         self.deriv["d1"].list(lambda d: d.ul().spot * 0.5 + 0.1, cost=1e-4)
         self.deriv["d3"].list(lambda d: (d.ul().spot - 1.0).abs() + 0.05, cost=2e-4)
